@@ -1,6 +1,6 @@
 //! C05 — feedback packets and their FCI survive a build-then-parse round trip.
 use common::cfg::*;
-use common::{forget, vcover, Src};
+use common::{forget, kf, vcover, Src};
 use rtcp_types::prelude::*;
 use rtcp_types::*;
 
@@ -259,7 +259,46 @@ pub fn fir<S: Src, const SYMBOLIC: bool>(s: &mut S) {
     }
 }
 
+/// Zero-entry SLI: the builder accepts it, the crate's own SLI parser demands one entry.
+/// Listed known finding `c05_empty_sli`: decided in the twin `kf_c05_empty_sli`.
+pub fn sli_empty<S: Src>(s: &mut S) {
+    vcover!(true, "reached");
+    if kf::C05_EMPTY_SLI {
+        return;
+    }
+    sli::<S, 0, 28>(s)
+}
+
+/// Zero-entry FIR, likewise (`c05_empty_fir`).
+pub fn fir_empty<S: Src>(s: &mut S) {
+    let c = FbCfg::draw(s, false);
+    s.assume(c.padding <= 8);
+    let f = Fir::builder();
+    let mut buf = [0xA5u8; 28];
+    let r = build(&c, &f, &mut buf);
+    forget(f);
+    match r {
+        Ok(n) => {
+            let p = parse_back!(PayloadFeedback, c, FMT_FIR, buf, n);
+            let fir = p.parse_fci::<Fir>().expect("FIR FCI does not decode");
+            assert!(fir.entries().next().is_none());
+            vcover!(true, "empty FIR round trip");
+        }
+        Err(_) => assert!(!padding_ok(c.padding), "builder rejected a legal FIR"),
+    }
+}
+
+pub fn fir_empty_main<S: Src>(s: &mut S) {
+    vcover!(true, "reached");
+    if kf::C05_EMPTY_FIR {
+        return;
+    }
+    fir_empty(s)
+}
+
 common::register! {
+    q_sli_empty = sli_empty => 2,
+    kf_c05_empty_sli = sli::<_, 0, 28> => 2,
     q_pli = pli => 2,
     q_sli_1 = sli::<_, 1, 32> => 3,
     q_sli_3 = sli::<_, 3, 40> => 5,
@@ -267,7 +306,6 @@ common::register! {
     q_nack_1 = nack::<_, 1, 32> => 3,
     q_nack_unit_4 = nack_unit::<_, 4> => 6,
     t_nack_unit_5 = nack_unit::<_, 5> => 7,
-    t_sli_0 = sli::<_, 0, 28> => 2,
     t_sli_2 = sli::<_, 2, 36> => 4,
     t_rpsi_long = rpsi::<_, 64, 96> => 2,
     t_nack_0 = nack::<_, 0, 28> => 2,
@@ -277,6 +315,8 @@ common::register! {
 }
 
 common::register_hashmap! {
+    q_fir_empty = fir_empty_main => 3,
+    kf_c05_empty_fir = fir_empty => 3,
     q_fir_1 = fir::<_, true> => 5,
     t_fir_fixed = fir::<_, false> => 6,
 }
